@@ -19,7 +19,7 @@ from pyvc.theories import TypePreds, ConcreteStr
 from pyvc.th_lists import Lists, Val, NONEV, VAL, fresh_list, V, as_list_sv
 from pyvc.th_tables import Tables, Key, KEY, fresh_table, wf, no_columns, nrows, column, same_table, key_of
 from pyvc.sv import SV, I, B, S, T, NONE, fresh_name, fresh_int
-from pyvc.th_tables2 import (Rows, Init, Concat, Concats, Slices, Deletes, PySlice, SLEN, SIDX, slice_axiom, CNT, cnt_def, count_lemmas, fresh_rowlist, rows_of, mask_list, rowmap, fresh_colmap, as_table, CLS,
+from pyvc.th_tables2 import (Rows, Init, Concat, Concats, Slices, Deletes, Names, Updates, NK, SK, SP, name_list, named, PySlice, SLEN, SIDX, slice_axiom, CNT, cnt_def, count_lemmas, fresh_rowlist, rows_of, mask_list, rowmap, fresh_colmap, as_table, CLS,
                               equally_long, same_columns, records_contract, empty_with_columns_contract, mask_contract, MASK_CLAUSES)
 
 PROP = 'C01'
@@ -255,6 +255,45 @@ def column_obligations(ctx, m):
         raise OutOfSubset('column access: expected a returning and a raising path')
 
 
+def names_obligations(ctx, m):
+    """d[[name_1, ..., name_k]] (k >= 1): dictable.__getitem__ -> dictattr.__getitem__ (inlined from _dictattr.py, is_rng from _as_list.py) -> the constructor with
+    keyword columns -> the constructor from a table.  The result has exactly the listed columns, each as it was: the projection keeps the rows."""
+    fdef = m.func('dictable.__getitem__')
+    md, ma = ctx.mod('_dictattr'), ctx.mod('_as_list')
+    inline = _inline(m)
+    inline['dictattr.__getitem__'] = (md, md.func('dictattr.__getitem__'))
+    inline['is_rng'] = (ma, ma.func('is_rng'))
+    n = Int('N')
+    t = fresh_table('self')
+    item = name_list('item')
+    ex = Exec(m, [Names(), Slices(), Init(), Rows(known=[(t, n)]), GetItem(), Dictable(m), Tables(), Lists(), TypePreds(extra={'is_arr': ()})], inline=inline,
+              name='__getitem__.names')
+    st = State(env={'self': t})
+    st.pc += [wf(t, n), item.t >= 1]
+    outs = ex.run_function(st, 'dictable.__getitem__', [t, item], {})
+    ctx.absorb(ex)
+    ctx.record_function(m, 'dictable.__getitem__', fdef, ex.stmts_executed)
+    ctx.record_function(md, 'dictattr.__getitem__', inline['dictattr.__getitem__'][1], ex.stmts_executed, excluded=['tuples of keys, dotted names: see C16'])
+    c = Const('c!nm', Key)
+    missing = Exists([c], And(named(item, c), Not(t.dom[c])))
+    nret = 0
+    for out in outs:
+        hy = ex.facts + out.st.pc
+        if out.kind == 'raise':
+            ctx.post('__getitem__.names.raises_only_KeyError_and_only_for_a_name_that_is_not_a_column', hy, And(BoolVal(out.val == 'KeyError'), missing), kind='safety')
+            continue
+        nret += 1
+        o = out.val
+        if o.kind != 'table':
+            raise OutOfSubset('projection does not return a table')
+        ctx.post('__getitem__.names.has_exactly_the_listed_columns', hy, And(Not(missing), ForAll([c], o.dom[c] == named(item, c))))
+        ctx.post('__getitem__.names.keeps_every_listed_column_as_it_is', hy, ForAll([c], Implies(named(item, c), And(o.clen[c] == t.clen[c], o.carr[c] == t.carr[c]))))
+        ctx.post('__getitem__.names.keeps_the_rows', hy, wf(o, n))
+    if nret == 0:
+        raise OutOfSubset('projection has no returning path')
+    ctx.cover('__getitem__.names.pre', [wf(t, n), n == 2, item.t == 1, item.arr[0] == key_of('a'), t.dom[key_of('a')], t.dom[key_of('b')]])
+
+
 def tuple_obligations(ctx, m):
     """d[(name_1, ..., name_k)] for k = 1..3 column names: the list of the rows' key tuples, one per row, in row order - the key projection that
     _listby (C02, C11) takes as its callee contract.  Key *functions* in the tuple (d[callable]) are not covered."""
@@ -370,6 +409,58 @@ def concat_obligations(ctx, m):
     ctx.cover('__add__.pre_with_an_absent_column', pre + [n0 == 2, n1 == 1, t0.dom[ka], t0.dom[kb], t1.dom[ka], Not(t1.dom[kb])])
 
 
+# ====================================================================================================== update
+def update_obligations(ctx, m):
+    """dictable.update(other) for a mapping whose columns all fit (they have len(self) entries, or self has no column yet and they are equally long): every
+    column of other is stored as it is, the other columns of self are untouched, the table stays rectangular.  The loop over other.items() carries the
+    invariant 'the keys passed so far are stored, the rest of the table is as before'; self[k] = v by the contract of __setitem__."""
+    fdef = m.func('dictable.update')
+    loop = select(fdef, 'For#0')
+    n, L = Int('N'), Int('L')
+    t0 = fresh_table('self')
+    other = fresh_colmap('other')
+    O = other.dom
+    c = Const('c!up', Key)
+    rows_now = nrows(t0, n)
+    final_rows = If(no_columns(t0), L, n)
+
+    def passed(cc, p):
+        return And(O[cc], SP(O, cc) < p)
+
+    def clauses(t, p):
+        return [('keys_passed_are_stored_as_they_are', ForAll([c], Implies(passed(c, p), And(t.dom[c], t.clen[c] == other.clen[c], t.carr[c] == other.carr[c])))),
+                ('the_rest_is_as_before', ForAll([c], Implies(Not(passed(c, p)), And(t.dom[c] == t0.dom[c], t.clen[c] == t0.clen[c], t.carr[c] == t0.carr[c])))),
+                ('position_in_range', And(0 <= p, p <= NK(O)))]
+
+    def inv(st, entry):
+        return clauses(st.env['self'], st.ghost['update.For0.k'])
+
+    spec = LoopSpec('update.For0', inv)
+    n_ob = len(ctx.obligations)
+    ex = Exec(m, [Updates(final_rows), Init(), Tables(), Lists(), TypePreds()], loops={id(loop): spec}, inline=_inline(m) | {'dictable.update': (m, fdef)}, name='update')
+    st = State(env={'self': t0})
+    pre = [wf(t0, n), wf(other, L), Or(no_columns(t0), L == n)]
+    st.pc += pre
+    outs = ex.run_function(st, 'dictable.update', [t0, other], {})
+    ctx.absorb(ex)
+    ctx.record_function(m, 'dictable.update', fdef, ex.stmts_executed, excluded=['values that need broadcasting or do not fit (ValueError): see __setitem__'])
+    nret = 0
+    for out in outs:
+        hy = ex.facts + out.st.pc
+        if out.kind != 'return':
+            ctx.post('update.never_raises_when_the_columns_fit.%s' % out.val, hy, BoolVal(False), kind='safety')
+            continue
+        nret += 1
+        t = out.st.env['self']
+        ctx.post('update.every_column_of_other_is_stored_as_it_is', hy, ForAll([c], Implies(O[c], And(t.dom[c], t.clen[c] == other.clen[c], t.carr[c] == other.carr[c]))))
+        ctx.post('update.other_columns_untouched', hy, ForAll([c], Implies(Not(O[c]), And(t.dom[c] == t0.dom[c], t.clen[c] == t0.clen[c], t.carr[c] == t0.carr[c]))))
+        ctx.post('update.table_stays_rectangular', hy, wf(t, If(no_columns(other), n, final_rows)))
+    if nret == 0:
+        raise OutOfSubset('update has no returning path')
+    ground_section(ctx, n_ob, rounds=3)
+    ctx.cover('update.pre', pre + [n == 2, t0.dom[key_of('a')], O[key_of('b')]])
+
+
 # ====================================================================================================== the constructor
 def _new_table():
     return SV('table', None, dom=z3.K(Key, False), clen=z3.K(Key, IntVal(0)), carr=z3.Array(fresh_name('new_col'), Key, z3.ArraySort(z3.IntSort(), Val)),
@@ -394,12 +485,13 @@ def constructor_obligations(ctx, m):
               ('records', rl, NONE, [rl.t >= 0],
                lambda o: [('no_record_no_column', records_contract(rl, o)[0]), ('one_key_set_columns_list_the_records_in_order', records_contract(rl, o)[1]),
                           ('several_key_sets_union_with_None_for_absent_cells', records_contract(rl, o)[2])]),
-              ('nothing', NONE, NONE, [], lambda o: [('has_no_column', no_columns(o))])]
+              ('nothing', NONE, NONE, [], lambda o: [('has_no_column', no_columns(o))]),
+              ('keywords', NONE, NONE, [equally_long(cm)], lambda o: [('stores_exactly_the_given_columns', same_columns(o, cm))])]
     for label, data, columns, pre, posts in shapes:
         ex = Exec(m, [Init(), Rows(), Dictable(m), Tables(), Lists(), TypePreds(extra={'is_arr': ()}), ConcreteStr(m)], inline=inline, name='constructor.' + label)
         st = State()
         st.pc += pre
-        outs = ex.run_function(st, 'dictable.__init__', [_new_table(), data, columns], {})
+        outs = ex.run_function(st, 'dictable.__init__', [_new_table(), data, columns], {'**': cm} if label == 'keywords' else {})
         ctx.absorb(ex)
         ctx.record_function(m, 'dictable.__init__', fdef, ex.stmts_executed, excluded=['keyword columns, scalar / length-1 broadcast on construction: bounded only'])
         ctx.record_function(m, '_data_columns_as_dict', inline['_data_columns_as_dict'][1], ex.stmts_executed,
@@ -583,7 +675,9 @@ def build(ctx):
     ctx.guarded('__getitem__.slice', lambda: slice_obligations(ctx, m))
     ctx.guarded('__getitem__.column', lambda: column_obligations(ctx, m))
     ctx.guarded('__getitem__.tuple', lambda: tuple_obligations(ctx, m))
+    ctx.guarded('__getitem__.names', lambda: names_obligations(ctx, m))
     ctx.guarded('delete', lambda: delete_obligations(ctx, m))
+    ctx.guarded('update', lambda: update_obligations(ctx, m))
     ctx.guarded('__add__', lambda: concat_obligations(ctx, m))
     ctx.guarded('constructor', lambda: constructor_obligations(ctx, m))
     ctx.guarded('dict_concat', lambda: dict_concat_obligations(ctx, m))
